@@ -269,11 +269,15 @@ func H_C18_unknown_op(v *zzverif.T) {
 	xs := zzverif.Syms[float32](v, "x", 2)
 	var out Tensors
 	var rerr error
-	panicked := v.Try(func() { out, rerr = m.Run(Tensors{"x": zzverif.NewTensor(xs, []int{2})}) })
-	v.Assert("C18.no-panic", !panicked)
-	if panicked {
-		return
+	X := zzverif.NewTensor(xs, []int{2})
+	// twice with the very same tensor object: a refusal is not forgotten the second time
+	for _, tag := range []string{"", ":again-with-the-same-tensor"} {
+		panicked := v.Try(func() { out, rerr = m.Run(Tensors{"x": X}) })
+		v.Assert("C18.no-panic"+tag, !panicked)
+		if panicked {
+			return
+		}
+		v.Assert("C18.unknown-operator-makes-Run-fail"+tag, rerr != nil && out == nil)
+		v.Assert("C18.with-the-unsupported-operator-error"+tag, rerr != nil && v.Is(rerr, ops.ErrUnsupportedOperator))
 	}
-	v.Assert("C18.unknown-operator-makes-Run-fail", rerr != nil && out == nil)
-	v.Assert("C18.with-the-unsupported-operator-error", rerr != nil && v.Is(rerr, ops.ErrUnsupportedOperator))
 }
